@@ -92,6 +92,12 @@ class Wrapper(Contract):
     def install_models(self, reg):
         c = self
 
+        def any_failure(msg):
+            # really any kind of failure, a TimeoutError included: a handler for a specific class may or may not catch it
+            x = SymExc('<any>', [msg])
+            x.refinable = True
+            return x
+
         def mark_failed(kind, unit):
             st = c._cur
             st.unit_failed_now = unit
@@ -107,7 +113,7 @@ class Wrapper(Contract):
                 st = c._cur
                 if st.cur_unit is not None:
                     mark_failed(st.cur_unit[0], st.cur_unit)
-                raise PyRaise(SymExc('<any>', [f'failure in {what}']))
+                raise PyRaise(any_failure(f'failure in {what}'))
 
         def canonical(I, a, k):
             c._cur.cur_unit = None
@@ -121,6 +127,10 @@ class Wrapper(Contract):
         def deny_update(I, o, a, k):
             c._cur.denylist_updates.append(a[0])
         reg.method_('Denylist', 'update', deny_update)
+        # a set made by the function itself (the real code makes none): it is not the canonical denylist, whatever is put into it later
+        reg.empty_set_hook = lambda I: SymObj('OwnSet07')
+        reg.method_('OwnSet07', 'update', lambda I, o, a, k: None)
+        reg.method_('OwnSet07', 'add', lambda I, o, a, k: None)
 
         def unit_caller(kind):
             def hook(I, a, k):
@@ -135,7 +145,7 @@ class Wrapper(Contract):
                           isinstance(k.get('denylist'), SymObj) and k['denylist'].cls == 'Denylist')
                 if I.e.branch(I.e.bool(f'fails_{kind}'), f'{kind} unit fails'):
                     mark_failed(kind, unit)
-                    raise PyRaise(SymExc('<any>', [f'{kind} unit failed']))
+                    raise PyRaise(any_failure(f'{kind} unit failed'))
                 if kind == 'main':
                     st.main_ok = True
                 pm = SymObj('PeptideMap', unit=unit)
